@@ -312,12 +312,11 @@ macro_rules! impl_div_for_primitive {
     (IMPL:DIV-ASSIGN $t:ty) => {
         impl DivAssign<$t> for BigDecimal {
             fn div_assign(&mut self, rhs: $t) {
-                if rhs.is_zero() {
-                    *self = BigDecimal::zero()
-                } else if rhs.is_one() {
+                if rhs.is_one() {
                     // no-op
                 } else {
-                    *self = self.clone() / BigDecimal::from(rhs);
+                    // same result as `self / rhs`: panics on zero, exact for +-2
+                    *self = self.clone() / rhs;
                 }
             }
         }
@@ -413,11 +412,8 @@ macro_rules! impl_div_for_primitive {
 
         impl DivAssign<$t> for BigDecimal {
             fn div_assign(&mut self, denom: $t) {
-                if !denom.is_normal() {
-                    *self = BigDecimal::zero()
-                } else {
-                    *self = self.clone() / BigDecimal::try_from(denom).unwrap()
-                };
+                // same result as `self / denom` (exact for +-2.0)
+                *self = self.clone() / denom;
             }
         }
     };
